@@ -159,6 +159,11 @@ def build(case):
                 nm = "fun_%d" % f
                 B.sym[nm] = add_symbol(m, nm, B.blocks[ents[0]["_idx"]])
             fn[u] = B.sym[nm]
+        # two functions whose name symbols are distinct symbols of one name (static functions of two translation units)
+        for f, g in case.get("dup_names", []):
+            if f in B.func_uuid and g in B.func_uuid and f != g:
+                ent = sorted(fe[B.func_uuid[f]], key=lambda b: b.offset)[0]
+                fn[B.func_uuid[f]] = add_symbol(m, fn[B.func_uuid[g]].name, ent)
         # blocks that belong to a second function as well (a shared tail)
         for bidx, f in case.get("shared", []):
             fb[B.func_uuid[f]].add(B.blocks[bidx])
